@@ -59,20 +59,25 @@ type C14Case struct {
 	StartOffsetMs int    `json:"start_offset_ms,omitempty"` // the client allocates this long after a whole minute (phase of its refresh timers against the nonce clock)
 	JoinSeg       []int  `json:"join_segment,omitempty"`    // per peer (cycled): first segment in which the application talks to it
 	Sibling       bool   `json:"sibling,omitempty"`         // every peer host also sends from a second port the client never wrote to (admitted by the per-IP permission alone)
-	Cred          string `json:"cred,omitempty"`            // "" static | ltc | rest (time-windowed credentials, C17 end-to-end)
-	CredDurS      int    `json:"cred_duration_s,omitempty"`
+	// Crowd > 0: besides the probed peers the application talks to this many further peer hosts
+	// (one IP each) once, early on; from then on a sample of them is probed in every segment from a
+	// port the client never wrote to - "any number of peers" of C14's quantifier
+	Crowd    int    `json:"crowd,omitempty"`
+	Cred     string `json:"cred,omitempty"` // "" static | ltc | rest (time-windowed credentials, C17 end-to-end)
+	CredDurS int    `json:"cred_duration_s,omitempty"`
 }
 
 type c14Result struct {
-	kind, msg string
-	probes    int
-	hours     float64
-	lossy     int
-	refused   int
-	atHorizon int
-	peerFirst int
-	floods    int
-	reallocs  int
+	kind, msg                string
+	probes                   int
+	hours                    float64
+	lossy                    int
+	refused                  int
+	atHorizon                int
+	peerFirst                int
+	floods                   int
+	reallocs                 int
+	crowdWrites, crowdProbes int
 	// sibling-port probes after an idle gap longer than the default permission lifetime
 	siblingAfterIdle int
 }
@@ -151,6 +156,14 @@ func runC14Inner(c *C14Case) (res c14Result) { //nolint:cyclop,gocyclo,maintidx
 		sb, _ := n.BindUDP("udp4", net.IPv4(10, 2, 0, byte(i+1)), 7001)
 		siblings = append(siblings, sb)
 	}
+	var crowd, crowdSiblings []*sim.UDPSock
+	for i := 0; i < c.Crowd; i++ {
+		ip := net.IPv4(10, 3, byte(i/200), byte(1+i%200))
+		p, _ := n.BindUDP("udp4", ip, 7000)
+		sb, _ := n.BindUDP("udp4", ip, 7001)
+		crowd, crowdSiblings = append(crowd, p), append(crowdSiblings, sb)
+	}
+	crowdWritten := false
 	deniedPeer, _ := n.BindUDP("udp4", c14DeniedIP, 7000)
 	written := map[int]bool{}
 	joined := func(pi, si int) bool { return len(c.JoinSeg) == 0 || si >= c.JoinSeg[pi%len(c.JoinSeg)] }
@@ -352,6 +365,7 @@ func runC14Inner(c *C14Case) (res c14Result) { //nolint:cyclop,gocyclo,maintidx
 			done = make(chan struct{})
 			startReader(relay, done)
 			written = map[int]bool{}
+			crowdWritten = false
 			if cerr := old.Close(); cerr == nil {
 				return *fail("double-close-no-error", "the second Close of the old relayed socket returned nil")
 			}
@@ -473,6 +487,44 @@ func runC14Inner(c *C14Case) (res c14Result) { //nolint:cyclop,gocyclo,maintidx
 				}
 			}
 		}
+		if len(crowd) > 0 {
+			if !crowdWritten {
+				for i, p := range crowd {
+					pa := &net.UDPAddr{IP: p.Local().IP, Port: p.Local().Port}
+					out := []byte(fmt.Sprintf("crowd c2p seg=%d host=%d", si, i))
+					if _, err := relay.WriteTo(out, pa); err != nil {
+						return *fail("relayed-write-failed", "WriteTo(%v) (crowd host %d of %d) on the relayed socket failed: %v", pa, i, len(crowd), err)
+					}
+					synctest.Wait()
+					if data, _, ok := p.TryRead(); !ok || !bytes.Equal(data, out) {
+						return *fail("client-to-peer-lost", "probe %q to crowd host %v did not arrive", out, pa)
+					}
+					res.probes++
+				}
+				crowdWritten = true
+				res.crowdWrites++
+			}
+			// a rotating sample of the crowd, from the port the client never wrote to
+			step := max(len(crowd)/12, 1)
+			for i := si % step; i < len(crowd); i += step {
+				src := crowdSiblings[i]
+				sa := &net.UDPAddr{IP: src.Local().IP, Port: src.Local().Port}
+				in := []byte(fmt.Sprintf("crowd s2c seg=%d host=%d", si, i))
+				rmu.Lock()
+				got = got[:0]
+				rmu.Unlock()
+				_, _ = src.WriteTo(in, relayAddr)
+				synctest.Wait()
+				rmu.Lock()
+				g := append([]rx{}, got...)
+				rmu.Unlock()
+				if len(g) != 1 || !bytes.Equal(g[0].payload, in) || g[0].from != sa.String() {
+					return *fail("permitted-host-to-client-lost", "probe %q from %v (crowd host %d of %d, the client has written to its port 7000): ReadFrom returned %d datagrams", in, sa, i, len(crowd), len(g))
+				}
+				res.probes++
+				res.crowdProbes++
+			}
+		}
 		if cnt := srv.AllocationCount(); cnt != 1 {
 			return *fail("allocation-count", "AllocationCount() = %d while the relayed socket is open", cnt)
 		}
@@ -579,6 +631,9 @@ func genC14(rt *rapid.T, maxHours int) *C14Case {
 		}
 	}
 	c.Sibling = rapid.IntRange(0, 2).Draw(rt, "sibling") > 0
+	if rapid.IntRange(0, 5).Draw(rt, "hasCrowd") == 0 {
+		c.Crowd = rapid.SampledFrom([]int{12, 40, 100, 114, 118, 125, 160}).Draw(rt, "crowd")
+	}
 	if rapid.IntRange(0, 2).Draw(rt, "lateJoiners") == 0 {
 		// some peers are first written to late in the session (e.g. beyond the nonce horizon)
 		for i := 0; i < c.NPeers; i++ {
@@ -687,6 +742,10 @@ func TestC14(t *testing.T) {
 		}
 		if res.peerFirst > 0 {
 			r.Label("peers-speak-first")
+		}
+		if res.crowdProbes > 0 {
+			r.Label(fmt.Sprintf("crowd-of-%d-peer-hosts", c.Crowd))
+			r.LabelN("crowd-probes", res.crowdProbes)
 		}
 		if c14NonTrivial(c, res) {
 			r.NonTrivial(vkit.Hash64(c))
